@@ -19,6 +19,31 @@ CLAIMED = {
     ),
 }
 
+CLAIMED["C07"] = dict(
+    text="Lean theorems (Props/C07.lean), parametric in the matcher and hence valid for every csvpath: collect() returns the "
+         "lines next() yields and all three entry points end in the same loop state (matcher state = variables/errors/printouts, "
+         "flags, counters); collect(nexts=n) returns the first n lines and its whole result is determined by a prefix of the "
+         "file (no effect of a later record). Tie: suite `methods` replays the real matcher's recorded behaviour through the "
+         "Lean run loop for collect/next/fast_forward/collect(nexts=1..matches+1) and compares lines, flags, counters, matcher "
+         "calls; the oracle compares the real entry points with each other and with next() iterated by hand.",
+    note="Trusts Lean kernel + 3 standard axioms; the recorded-matcher harness; Python generator semantics (an abandoned "
+         "generator runs no further code) as modelled by the budgeted loop.",
+    technique="Lean 4 proof (induction over records, parametric matcher) + recorded-matcher correspondence",
+    design="6/C07",
+)
+CLAIMED["C15"] = dict(
+    text="Lean theorems (Props/C15.lean): for every matcher and file, return-mode no-matches yields exactly the scanned records "
+         "the default mode does not (same matcher calls, same final state); with unmatched-mode keep the collected and unmatched "
+         "lines partition the records read, in order; run-mode no-run reads nothing; the outer comment scanner returns scan and "
+         "match text unchanged for every comment free of ~[]$ (any Unicode classification). Tie: suite `modes` (written modes, "
+         "flipped return-mode, flipped print-mode, metadata fields) against the real code and the model; the metadata field "
+         "scanner model is fuzzed against MetadataParser on every case.",
+    note="print-mode and the field scanner (collect_metadata) are covered by model correspondence and the oracle, not by a theorem; "
+         "str.isalnum/isspace are parameters of the model supplied per character by the harness.",
+    technique="Lean 4 proof (run-loop invariants; character state machine) + correspondence",
+    design="6/C15",
+)
+
 NOT_YET = "check not built yet in this revision (planned: see DESIGN.md section 6); not claimed until its theorem and correspondence suite exist"
 
 
